@@ -11,6 +11,7 @@ _SERIAL = [0]
 
 SM = ["sm"]          # name of the scenario manager the factory registers (a harness may switch it, e.g. to "2024")
 RUNSPEC = [1.0, 10.0, 1.0]
+TWO = [False]        # True: the factory registers a second manager "sm2" (another model) and sessions span both managers
 
 def make_bptk():
     m = Model(starttime=RUNSPEC[0], stoptime=RUNSPEC[1], dt=RUNSPEC[2], name="m")
@@ -20,6 +21,12 @@ def make_bptk():
     b.register_model(m)
     b.register_scenario_manager({SM[0]: {"model": m}})
     b.register_scenarios(scenario_manager=SM[0], scenarios={"base": {"constants": {"c": 1.0}}})
+    if TWO[0]:
+        m2 = Model(starttime=RUNSPEC[0], stoptime=RUNSPEC[1], dt=RUNSPEC[2], name="m2")
+        s2 = m2.stock("s"); f2 = m2.flow("f"); c2 = m2.constant("c")
+        s2.initial_value = 5.0; c2.equation = 3.0; f2.equation = c2 * 2.0; s2.equation = f2
+        b.register_scenario_manager({"sm2": {"model": m2}})
+        b.register_scenarios(scenario_manager="sm2", scenarios={"base": {"constants": {"c": 3.0}}})
     orig = b.destroy
     _SERIAL[0] += 1
     b._verif_serial = _SERIAL[0]
@@ -52,7 +59,7 @@ def start(client, headers=None, timeout=None):
     return json.loads(r.data)["instance_uuid"]
 
 def begin(client, u, headers=None):
-    return client.post("/%s/begin-session" % u, json=dict(BEGIN, scenario_managers=[SM[0]]), headers=headers or {})
+    return client.post("/%s/begin-session" % u, json=dict(BEGIN, scenario_managers=[SM[0]] + (["sm2"] if TWO[0] else [])), headers=headers or {})
 
 def digest(app):
     """server-side state that a refused request must not change"""
@@ -117,7 +124,21 @@ def run(case):
     client.post("/agents", json={}, headers=OK)
     client.post("/%s/run-steps" % u, json={"numberSteps": 1}, headers=OK)
     n3, bad = sweep(app, client, u, "after failing authorised requests")
-    return n + n2 + n3, bad
+    if bad:
+        return n + n2 + n3, bad
+    # an authorised stream is in progress (the instance is locked) while the refused requests arrive
+    u2 = start(client, OK); begin(client, u2, OK)
+    r = client.post("/%s/stream-steps" % u2, json={"settings": {}}, headers=OK, buffered=False)
+    it = iter(r.response)
+    try:
+        next(it); next(it)
+    except StopIteration:
+        pass
+    try:
+        n4, bad = sweep(app, client, u2, "stream in progress")
+    finally:
+        r.close()
+    return n + n2 + n3 + n4, bad
 
 n, bad = run(None)
 print("FAIL: " + bad if bad else "PASS")
